@@ -38,6 +38,10 @@ def real_fmt(rng, single):
         w = d + (6 if kind in ('E', 'D') else 7) if tight else d + rng.choice([8, 9, 10])
         k = rng.choice([kk for kk in (1, 2, 3, 4, 5, 6) if kk * w <= 80])
         ech = 'D' if 'D' in kind else 'E'
+        dch = ech               # letter in the descriptor
+        if rng.random() < 0.3:
+            # on input the E and D edit descriptors are interchangeable: data written with the other exponent letter (either case) is legal
+            ech = rng.choice(['D', 'E', 'd', 'e'])
         onep = kind.startswith('P')
         def f(v):
             s = '%.*E' % ((d if onep else d - 1), v)     # a.bcdE+xx
@@ -54,7 +58,7 @@ def real_fmt(rng, single):
             else:
                 out = mant + ech + ('%+03d' % ex)
             return out.rjust(w)
-        desc = '(%s%d%s%d.%d)' % ('1P' if onep else '', k, ech, w, d)
+        desc = '(%s%d%s%d.%d)' % ('1P' if onep else '', k, dch, w, d)
         if tight:
             f0 = f
             f = lambda v: f0(abs(v))
